@@ -34,7 +34,7 @@ RULE = ("programs = FHDL modules converted and executed on both sides (packed gr
         "disagreements_checked = (observation, input/trace) disagreements classified S/S_w/V/V_unb")
 ASSUMPTIONS = [
     "Verilog semantics = vlog, an interpreter of IEEE 1364-2005 written for this task (sizing/typing from §5.4-5.5, "
-    "event semantics of always @(*) from §9.7.5); no third-party simulator exists in the sandbox; 81 hand-computed "
+    "event semantics of always @(*) from §9.7.5); no third-party simulator exists in the sandbox; the hand-computed "
     "sizing/scheduling cases are re-checked at the start of every configuration",
     "2-state, zero-delay; uninitialised regs and memory words read 0; no X/Z, no Instance/tristate primitives",
     "side A is LiteX's own simulator semantics (litex.gen.sim.core): compiled stepper, conformance-checked against the "
